@@ -53,6 +53,7 @@ type C09Prog struct {
 	BodyOf map[int]int // actor id -> body kind
 	Init   int // 0 none, 1 package var initialiser, 2 init function, 3 both
 	Sleeps bool
+	Root   int // actor called by main
 }
 
 type c09Gen struct {
@@ -249,5 +250,5 @@ func GenC09Imp(tape *Tape, allowSleep, withImport bool) *C09Prog {
 	} else {
 		fmt.Fprintf(&src, "func main() {\n\thost.Tick(800)\n\tactor%d()\n\thost.Tick(801)\n}\n", root)
 	}
-	return &C09Prog{Src: src.String(), Desc: fmt.Sprintf("init=%d %s", initKind, strings.Join(g.desc, " ")), Bodies: g.bodies, BodyOf: g.bodyOf, Init: initKind, Sleeps: g.sleeps}
+	return &C09Prog{Src: src.String(), Desc: fmt.Sprintf("init=%d %s", initKind, strings.Join(g.desc, " ")), Bodies: g.bodies, BodyOf: g.bodyOf, Init: initKind, Sleeps: g.sleeps, Root: root}
 }
